@@ -50,6 +50,10 @@ func checkC06(c *core.Ctx) {
 	c06Wrappers(c, k, ck)
 	c06Temporal(c, k, ck)
 	c06Siblings(c)
+	c.Rule("ORD.concurrent-wrapper-delegates", "ConcurrentFactStore, the locking wrapper: every method takes the mutex once (write lock for Add, Remove, Merge), makes exactly one call of the base method of the same name while holding it and returns that call's result, so the wrapper answers like the store it wraps (obligation shared with C18)", 7)
+	c.Under("ORD.concurrent-wrapper-delegates", []string{rC18Lock}, func() { c18Locks(c) })
+	c.Rule("ORDABS.atoms-compared-structurally", "the stores tell atoms apart with Constant.Equals / Atom.Equals: evaluated from source over the constant universe of C08 (every kind, nested, equal first components with second components that differ only in kind, values whose hashes coincide), Equals is structural equality and agrees with Hash and String (obligation shared with C08)", 2)
+	c.Under("ORDABS.atoms-compared-structurally", []string{rC08Eq, rC08Hash, rC08Inj}, func() { c08Equality(c, false, false) })
 }
 
 // c06RuleOverride lets another property (C05: choice of store) evaluate the same laws under its own rule name.
